@@ -2,8 +2,10 @@
   C03 — input is a JSON value stream: incremental, chunking-independent, faults reported.
   * The decoder model (`Json.decodeOne`, a byte-exact port of encoding/json's Decoder.Decode,
     differentially tested) is prefix-stable: once the bytes read so far determine a value, no
-    later byte and no chunking can change it (`Lemmas/JsonPrefix.lean`).  That the value's own
-    bytes and at most ONE following byte suffice is shown on examples only (no theorem).
+    later byte and no chunking can change it (`Lemmas/JsonPrefix.lean`).  The value's own bytes
+    suffice for arrays and objects, and ONE following byte (any byte) for numbers, strings and
+    true/false/null — exactly encoding/json's behaviour (section OneByte:
+    `value_and_at_most_one_byte`, `available_exactly_when`, `k_values_and_one_byte_suffice`).
   * The driver processes each value completely before looking at the rest of the stream, stops
     at the first fault with a JSON error naming the file without running any rule on the partial
     value, and ends a file normally ONLY when the decoder reported a clean end of input.
@@ -11,6 +13,7 @@
 import Jqawk.Model.Driver
 import Jqawk.Lemmas.JsonPrefix
 import Jqawk.Lemmas.StreamPrefix
+import Jqawk.Lemmas.OneByteRun
 
 namespace Jqawk.C03
 open Jqawk
@@ -212,5 +215,438 @@ theorem prefix_values (numOk : Bytes → Bool) (more : Bytes) (t : Json.Tail) :
 example : (decodeAll (fun _ => true) .more 10 b!"[1] {\"a\":2} [3").1.length = 2 := by decide +kernel
 /-- … and the hypothesis `≠ .fuel` of `prefix_values` holds there -/
 example : (decodeAll (fun _ => true) .more 10 b!"[1] {\"a\":2} [3").2 = .fault := by decide +kernel
+
+/-! ## "Once a value and at most one following byte have been read" — as theorems
+
+  Everything below is about `Json.decodeOne … .more`: the bytes read so far, with the reader still
+  open.  A byte string `v` is ONE COMPLETE VALUE for the decoder in one of two ways:
+  * self-delimited: `decodeOne f v .more = .value j []` — `v` alone yields `j`, nothing unread;
+  * delimited by the byte `d`: `decodeOne f (v ++ [d]) .more = .value j [d]` — `v` and one further
+    byte yield `j`, and exactly that byte is left unread.
+  FINDING (model = Go): the self-delimited values are exactly the arrays and objects.  Numbers,
+  `true` / `false` / `null` AND STRINGS need the following byte: encoding/json's scanner reports the
+  end of a top-level scalar one byte late (`stateEndTop`), and stream.go `readValue` only
+  short-cuts the wait after `scanEndObject` / `scanEndArray`, not after a closing quote.  So
+  `jqawk` fed `"x"` from an open pipe processes the string only when one more byte (or the end
+  of the stream) arrives.  This is within the property's "at most one following byte". -/
+section OneByte
+open Jqawk.OneByte
+
+/-- **a self-delimited value does not depend on anything after it**: if `v` alone (reader still
+    open) decodes to `j` with nothing unread, then `v` followed by ANY bytes, however the stream
+    ends, decodes to the same `j`, consuming exactly the bytes of `v`.
+    Does not say which `v` are self-delimited — see `selfDelimited_iff_composite`. -/
+theorem selfDelimited_any_continuation (f : Bytes → Bool) (v : Bytes) (j : JVal)
+    (h : Json.decodeOne f v .more = .value j []) (rest : Bytes) (t : Json.Tail) :
+    Json.decodeOne f (v ++ rest) t = .value j rest := by
+  simpa using Json.decodeOne_prefix_value rest t h
+
+/-- non-vacuity: `[1]` and `{"a":2}` are self-delimited; in the stream `[1]{"a":2}` the first
+    value is available with its closing bracket -/
+example : (match Json.decodeOne (fun _ => true) b!"[1]" .more, Json.decodeOne (fun _ => true) b!"{\"a\":2}" .more,
+      Json.decodeOne (fun _ => true) b!"[1]{\"a\":2}" .more with
+    | .value (.arr [.num n]) [], .value (.obj [(k, .num m)]) [], .value (.arr [.num n']) rest =>
+      n == b!"1" && k == b!"a" && m == b!"2" && n' == b!"1" && rest == b!"{\"a\":2}"
+    | _, _, _ => false) = true := by decide +kernel
+
+/-- **a value and ONE following byte do not depend on anything after that byte**: if `v`
+    followed by the single byte `d` decodes to `j` leaving exactly `d` unread, then `v ++ d :: rest`
+    decodes to the same `j`, consuming exactly the bytes of `v`, for every `rest` and every way
+    the stream ends.  Does not say which bytes `d` delimit `v` — see `any_delimiter`. -/
+theorem delimited_any_continuation (f : Bytes → Bool) (v : Bytes) (d : UInt8) (j : JVal)
+    (h : Json.decodeOne f (v ++ [d]) .more = .value j [d]) (rest : Bytes) (t : Json.Tail) :
+    Json.decodeOne f (v ++ d :: rest) t = .value j (d :: rest) := by
+  simpa using Json.decodeOne_prefix_value rest t h
+
+/-- non-vacuity, on the streams `1 2`, `"x""y"` and `truefalse`: the first value is delimited by
+    the byte after it (a space, the next opening quote, the `f` of `false`) -/
+example : (match Json.decodeOne (fun _ => true) b!"1 " .more, Json.decodeOne (fun _ => true) b!"\"x\"\"" .more,
+      Json.decodeOne (fun _ => true) b!"truef" .more with
+    | .value (.num n) r1, .value (.str x) r2, .value (.bool true) r3 =>
+      n == b!"1" && r1 == b!" " && x == b!"x" && r2 == b!"\"" && r3 == b!"f"
+    | _, _, _ => false) = true := by decide +kernel
+/-- … and the whole streams: `"x""y"` is the string x, then `"y"` unread; `truefalse` is `true`,
+    then `false` unread (no separator needed: the model and Go accept both) -/
+example : (match Json.decodeOne (fun _ => true) b!"1 2" .eof, Json.decodeOne (fun _ => true) b!"\"x\"\"y\"" .eof,
+      Json.decodeOne (fun _ => true) b!"truefalse" .eof with
+    | .value (.num n) r1, .value (.str x) r2, .value (.bool true) r3 =>
+      n == b!"1" && r1 == b!" 2" && x == b!"x" && r2 == b!"\"y\"" && r3 == b!"false"
+    | _, _, _ => false) = true := by decide +kernel
+example : (decodeAll (fun _ => true) .eof 10 b!"truefalse").1.length = 2
+    ∧ (decodeAll (fun _ => true) .eof 10 b!"\"x\"\"y\"").1.length = 2
+    ∧ (decodeAll (fun _ => true) .eof 10 b!"truefalse").2 = .clean := by decide +kernel
+
+/-- **every successful decode has one of these two forms** (so "a value and at most one following
+    byte" is all the decoder ever uses): if on the bytes `inp` (reader still open) the decoder
+    answers `j` leaving `rest` unread, then `inp = v ++ rest` with `v` not empty (the value's text
+    with its leading white space) and
+    * `j` is an array or object and `v` ALONE decodes to `j` with nothing unread; or
+    * `j` is null / a boolean / a number / a string, `v` alone is NOT enough (the decoder asks for
+      more bytes), `rest` is not empty, and `v` with just the first byte `d` of `rest` decodes to
+      `j` leaving `d`.
+    Does not describe `v` syntactically (no grammar of JSON texts here). -/
+theorem value_and_at_most_one_byte (f : Bytes → Bool) (inp rest : Bytes) (j : JVal)
+    (h : Json.decodeOne f inp .more = .value j rest) :
+    ∃ v, inp = v ++ rest ∧ v ≠ [] ∧
+      ((composite j = true ∧ Json.decodeOne f v .more = .value j []) ∨
+       (composite j = false ∧ Json.decodeOne f v .more = .needMore ∧
+        ∃ d r, rest = d :: r ∧ Json.decodeOne f (v ++ [d]) .more = .value j [d])) := by
+  obtain ⟨v, h1, h2, h3 | ⟨h3, h4, h5, _⟩⟩ := decode_split h
+  · exact ⟨v, h1, h2, .inl h3⟩
+  · exact ⟨v, h1, h2, .inr ⟨h3, h4, h5⟩⟩
+
+/-- **exactly the arrays and objects need no following byte**: a decode that leaves NOTHING
+    unread returned an array or an object … -/
+theorem selfDelimited_is_composite (f : Bytes → Bool) (v : Bytes) (j : JVal)
+    (h : Json.decodeOne f v .more = .value j []) : composite j = true :=
+  composite_of_rest_nil h
+
+/-- … and conversely whenever an array or object is decoded, the bytes consumed decode to it on
+    their own; whenever a scalar (null, boolean, number, STRING) is decoded, the bytes consumed
+    are not enough on their own: the decoder has looked at one further byte. -/
+theorem selfDelimited_iff_composite (f : Bytes → Bool) (v rest : Bytes) (j : JVal)
+    (h : Json.decodeOne f (v ++ rest) .more = .value j rest) :
+    (composite j = true → Json.decodeOne f v .more = .value j []) ∧
+    (composite j = false → Json.decodeOne f v .more = .needMore ∧ rest ≠ []) := by
+  obtain ⟨v0, h0, _, hcase⟩ := decode_split h
+  have hv : v0 = v := (List.append_cancel_right h0).symm
+  subst hv
+  rcases hcase with ⟨hj, h1⟩ | ⟨hj, h1, ⟨d, r, hr, _⟩, _⟩
+  · exact ⟨fun _ => h1, fun hc => (by rw [hj] at hc; cases hc)⟩
+  · exact ⟨fun hc => (by rw [hj] at hc; cases hc), fun _ => ⟨h1, (by rw [hr]; simp)⟩⟩
+
+/-- non-vacuity and the FINDING about strings: `"x"`, `true`, `null`, `12` alone (reader open) make
+    the decoder wait; `"x" `, `true,`, `nullx`, `12]` yield the value and leave the extra byte -/
+example : (match Json.decodeOne (fun _ => true) b!"\"x\"" .more, Json.decodeOne (fun _ => true) b!"true" .more,
+      Json.decodeOne (fun _ => true) b!"null" .more, Json.decodeOne (fun _ => true) b!"12" .more with
+    | .needMore, .needMore, .needMore, .needMore => true
+    | _, _, _, _ => false) = true := by decide +kernel
+example : (match Json.decodeOne (fun _ => true) b!"\"x\" " .more, Json.decodeOne (fun _ => true) b!"true," .more,
+      Json.decodeOne (fun _ => true) b!"nullx" .more, Json.decodeOne (fun _ => true) b!"12]" .more with
+    | .value (.str x) r1, .value (.bool true) r2, .value .null r3, .value (.num n) r4 =>
+      x == b!"x" && r1 == b!" " && r2 == b!"," && r3 == b!"x" && n == b!"12" && r4 == b!"]"
+    | _, _, _, _ => false) = true := by decide +kernel
+
+/-- **which following byte will do**: if `v` is delimited by SOME byte `d`, then it is delimited,
+    with the same value, by every byte `d'` that `delimits j`: ANY byte at all when `j` is a
+    string, `true`, `false` or `null` (or an array / object, which need none); for a number every
+    byte except a digit, `.`, `e`, `E` (white space "suffices", but so do `,` `]` `"` `-` `x` …).
+    Whether the NEXT value then decodes is another matter (`12x`: 12, then a JSON error).
+    Not claimed for a number followed by a digit / `.` / `e` / `E`: see the examples below. -/
+theorem any_delimiter (f : Bytes → Bool) (v : Bytes) (d d' : UInt8) (j : JVal)
+    (h : Json.decodeOne f (v ++ [d]) .more = .value j [d]) (hd : delimits j d' = true)
+    (rest : Bytes) (t : Json.Tail) :
+    Json.decodeOne f (v ++ d' :: rest) t = .value j (d' :: rest) := by
+  obtain ⟨v0, h0, _, hcase⟩ := decode_split h
+  have hv : v0 = v := (List.append_cancel_right h0).symm
+  subst hv
+  rcases hcase with ⟨_, h1⟩ | ⟨_, _, _, h2⟩
+  · simpa using Json.decodeOne_prefix_value (d' :: rest) t h1
+  · simpa using Json.decodeOne_prefix_value rest t (h2 d' hd)
+
+example : delimits (.str b!"x") 0x31 = true ∧ delimits (.bool true) 0x66 = true ∧ delimits .null 0x00 = true
+    ∧ delimits (.num b!"12") 0x20 = true ∧ delimits (.num b!"12") 0x2D = true
+    ∧ delimits (.num b!"12") 0x33 = false ∧ delimits (.num b!"12") 0x2E = false
+    ∧ delimits (.num b!"12") 0x65 = false := by decide
+/-- why the exception for numbers is needed: after `12` the bytes `3`, `.`, `e` continue the literal
+    (the decoder waits), and what follows may even turn the input into an error (`12.x`); yet a
+    digit DOES delimit after a leading `0` (`01` is 0, then 1 — as in Go's stream decoder), so
+    `delimits` is sufficient, not necessary -/
+example : (match Json.decodeOne (fun _ => true) b!"123" .more, Json.decodeOne (fun _ => true) b!"12." .more,
+      Json.decodeOne (fun _ => true) b!"12e" .more, Json.decodeOne (fun _ => true) b!"12.x" .more,
+      Json.decodeOne (fun _ => true) b!"01" .more with
+    | .needMore, .needMore, .needMore, .error, .value (.num z) r => z == b!"0" && r == b!"1"
+    | _, _, _, _, _ => false) = true := by decide +kernel
+
+/-- **not before its last byte**: while the decoder still asks for more on some bytes it asks for
+    more on every shorter prefix; so a self-delimited value is not available on any proper prefix
+    of its text, and a delimited one on no prefix of `v` -/
+theorem not_before_last_byte (f : Bytes → Bool) (p q : Bytes)
+    (h : Json.decodeOne f (p ++ q) .more = .needMore) : Json.decodeOne f p .more = .needMore :=
+  needMore_of_prefix h
+
+example : (match Json.decodeOne (fun _ => true) b!"[1, 2" .more, Json.decodeOne (fun _ => true) b!"[1," .more with
+    | .needMore, .needMore => true
+    | _, _ => false) = true := by decide +kernel
+
+/-- a self-delimited value is not available before its last byte -/
+theorem selfDelimited_minimal (f : Bytes → Bool) (p q : Bytes) (j : JVal) (hq : q ≠ [])
+    (h : Json.decodeOne f (p ++ q) .more = .value j []) : Json.decodeOne f p .more = .needMore := by
+  cases hp : Json.decodeOne f p .more with
+  | needMore => rfl
+  | eof => exact absurd hp (decodeOne_more_ne_eof f p)
+  | error => rw [Json.decodeOne_prefix_error q .more hp] at h; cases h
+  | value v r =>
+    rw [Json.decodeOne_prefix_value q .more hp] at h
+    simp only [Json.DecodeRes.value.injEq, List.append_eq_nil_iff] at h
+    exact absurd h.2.2 hq
+
+example : (match Json.decodeOne (fun _ => true) b!"[1" .more, Json.decodeOne (fun _ => true) b!"[1]" .more with
+    | .needMore, .value _ [] => true
+    | _, _ => false) = true := by decide +kernel
+
+/-- **exactly when the answer becomes available**, as the bytes of a stream `v ++ rest` arrive
+    (`v` = the first value's text, decoded to `j` with `rest` unread): on an initial part `q` of
+    the stream the decoder answers `j` (leaving what `q` has beyond `v`) as soon as `q` contains
+    `v` — plus ONE more byte unless `j` is an array or object — and until then it asks for more
+    bytes; it never answers anything else.  So one following byte is sufficient for every value
+    and necessary for exactly the scalars (null, booleans, numbers, strings). -/
+theorem available_exactly_when (f : Bytes → Bool) (v rest : Bytes) (j : JVal)
+    (h : Json.decodeOne f (v ++ rest) .more = .value j rest) (q : Bytes) (hq : q <+: v ++ rest) :
+    Json.decodeOne f q .more =
+      if v.length + (if composite j = true then 0 else 1) ≤ q.length then .value j (q.drop v.length)
+      else .needMore := by
+  obtain ⟨v0, h0, _, hcase⟩ := decode_split h
+  have hv : v0 = v := (List.append_cancel_right h0).symm
+  subst hv
+  have hvp : v0 <+: v0 ++ rest := List.prefix_append v0 rest
+  -- the answer on an initial part that contains `v0` and, for scalars, one more byte
+  have long : ∀ r', r' <+: rest → (r' ≠ [] ∨ composite j = true) →
+      Json.decodeOne f (v0 ++ r') .more = .value j ((v0 ++ r').drop v0.length) := by
+    intro r' hr' hr
+    rw [decode_shorter_rest h hr' hr]; simp
+  rcases hcase with ⟨hj, h1⟩ | ⟨hj, h1, _, _⟩
+  · simp only [hj, ↓reduceIte, Nat.add_zero]
+    by_cases hlen : v0.length ≤ q.length
+    · rw [if_pos hlen]
+      obtain ⟨r', rfl⟩ := List.prefix_of_prefix_length_le hvp hq hlen
+      exact long r' ((List.prefix_append_right_inj v0).mp hq) (.inr hj)
+    · rw [if_neg hlen]
+      obtain ⟨q', rfl⟩ := List.prefix_of_prefix_length_le hq hvp (by omega)
+      refine selfDelimited_minimal f q q' j ?_ h1
+      rintro rfl
+      simp at hlen
+  · simp only [hj, Bool.false_eq_true, ↓reduceIte]
+    by_cases hlen : v0.length + 1 ≤ q.length
+    · rw [if_pos hlen]
+      obtain ⟨r', rfl⟩ := List.prefix_of_prefix_length_le hvp hq (by omega)
+      refine long r' ((List.prefix_append_right_inj v0).mp hq) (.inl ?_)
+      rintro rfl
+      simp only [List.append_nil] at hlen
+      omega
+    · rw [if_neg hlen]
+      obtain ⟨q', rfl⟩ := List.prefix_of_prefix_length_le hq hvp (by omega)
+      exact needMore_of_prefix h1
+
+/-- non-vacuity: the stream ` "x""y"` (`v` = ` "x"`, 4 bytes, a scalar): 4 bytes are not enough, 5 are;
+    the stream `[1]{"a":2}` (`v` = `[1]`, 3 bytes, an array): 2 bytes are not enough, 3 are -/
+example : (match Json.decodeOne (fun _ => true) b!" \"x\"\"y\"" .more,
+      Json.decodeOne (fun _ => true) (b!" \"x\"\"y\"".take 4) .more,
+      Json.decodeOne (fun _ => true) (b!" \"x\"\"y\"".take 5) .more with
+    | .value (.str x) r, .needMore, .value (.str x') r' => x == b!"x" && r == b!"\"y\"" && x' == b!"x" && r' == b!"\""
+    | _, _, _ => false) = true := by decide +kernel
+example : (match Json.decodeOne (fun _ => true) (b!"[1]{\"a\":2}".take 2) .more,
+      Json.decodeOne (fun _ => true) (b!"[1]{\"a\":2}".take 3) .more with
+    | .needMore, .value (.arr [_]) [] => true
+    | _, _ => false) = true := by decide +kernel
+
+/-! ### run level -/
+
+/-- **The first `k` values and at most one following byte fix the state the run reaches.**
+    `processK … k data s = some (vals, sk, rest)` says: the first `k` values `vals` of `data` are
+    complete (as seen with the reader still open) and have been processed one after the other —
+    all rules run, none ended the run —, reaching state `sk` (whose `output` is what has been
+    written so far), with `rest` not yet looked at.  Then `data = p ++ rest`, `p` being the bytes
+    up to the end of the k-th value, and `p` plus ONE byte of `rest` (nothing, if nothing follows)
+    already gets these `k` values processed, to the very same state `sk`.
+    Does not say anything when a rule ends the run (`exit`, runtime error) within the first `k`
+    values, nor when the evaluator runs out of fuel there: `processK` is `none` then. -/
+theorem k_values_and_one_byte_suffice (src : Bytes) (tbl : RuleTable) (sels : List Bytes) (name : Bytes)
+    (k : Nat) (data : Bytes) (s sk : St) (vals : List JVal) (rest : Bytes)
+    (h : processK prog src tbl sels name k data s = some (vals, sk, rest)) :
+    ∃ p, data = p ++ rest ∧
+      processK prog src tbl sels name k (p ++ rest.take 1) s = some (vals, sk, rest.take 1) := by
+  obtain ⟨p, hp, hall⟩ := processK_extent prog k data s sk vals rest h
+  refine ⟨p, hp, hall _ (List.take_prefix 1 rest) ?_⟩
+  cases rest with
+  | nil => exact .inr (.inl rfl)
+  | cons d r => exact .inl (by simp)
+
+/-- non-vacuity of the hypothesis `processK … = some …` (program `{ print $ }`, stream `1 2`, k = 1):
+    the first value is processed, `1\n` is written, ` 2` is unread — and, as the theorem says, the
+    three bytes are not needed: `1` and the following space give the same output -/
+example : (match parseProgramSrc expectedRuleTable b!"{ print $ }" with
+  | .ok prog =>
+    (match processK prog b!"{ print $ }" expectedRuleTable [] b!"f" 1 b!"1 2" (newEvaluator prog Heap.empty [] 0),
+           processK prog b!"{ print $ }" expectedRuleTable [] b!"f" 1 b!"1 " (newEvaluator prog Heap.empty [] 0),
+           processK prog b!"{ print $ }" expectedRuleTable [] b!"f" 1 b!"1" (newEvaluator prog Heap.empty [] 0) with
+      | some (vals, sk, rest), some (_, sk', rest'), none =>
+        sk.output == b!"1\n" && rest == b!" 2" && vals.length == 1 && sk'.output == b!"1\n" && rest' == b!" "
+      | _, _, _ => false)
+  | _ => false) = true := by decide +kernel
+
+/-- … and no byte at all after the k-th value when that value is an array or object -/
+theorem k_values_suffice_when_last_composite (src : Bytes) (tbl : RuleTable) (sels : List Bytes) (name : Bytes)
+    (k : Nat) (data : Bytes) (s sk : St) (vals : List JVal) (rest : Bytes)
+    (h : processK prog src tbl sels name k data s = some (vals, sk, rest)) (hl : lastComposite vals) :
+    ∃ p, data = p ++ rest ∧ processK prog src tbl sels name k p s = some (vals, sk, []) := by
+  obtain ⟨p, hp, hall⟩ := processK_extent prog k data s sk vals rest h
+  refine ⟨p, hp, ?_⟩
+  simpa using hall [] List.nil_prefix (.inr (.inr (.inr hl)))
+
+/-- non-vacuity (stream `1 [2]{"a":3}`, k = 2: the second value is an array, the object is unread) -/
+example : (match parseProgramSrc expectedRuleTable b!"{ print $ }" with
+  | .ok prog =>
+    (match processK prog b!"{ print $ }" expectedRuleTable [] b!"f" 2 b!"1 [2]{\"a\":3}" (newEvaluator prog Heap.empty [] 0),
+           processK prog b!"{ print $ }" expectedRuleTable [] b!"f" 2 b!"1 [2]" (newEvaluator prog Heap.empty [] 0) with
+      | some (vals, sk, rest), some (_, sk', rest') =>
+        sk.output == b!"1\n2\n" && rest == b!"{\"a\":3}" && sk'.output == b!"1\n2\n" && rest' == b!"" &&
+        (match vals.getLast? with | some j => composite j | none => false)
+      | _, _ => false)
+  | _ => false) = true := by decide +kernel
+
+/-- **…and for a scalar the byte is needed**: if the k-th value is null, a boolean, a number or a
+    string (not an array / object), the bytes `p` up to its end alone do NOT get `k` values
+    processed — with the reader still open, the k-th value's rules have not run and its output is
+    not written before one more byte arrives (Go: `Decode` is still blocked in `Read`). -/
+theorem k_values_not_before_the_byte (src : Bytes) (tbl : RuleTable) (sels : List Bytes) (name : Bytes)
+    (k : Nat) (p rest : Bytes) (s sk : St) (vals : List JVal) (hk : 0 < k)
+    (h : processK prog src tbl sels name k (p ++ rest) s = some (vals, sk, rest))
+    (hl : ¬ lastComposite vals) :
+    processK prog src tbl sels name k p s = none := by
+  cases hp : processK prog src tbl sels name k p s with
+  | none => rfl
+  | some res =>
+    obtain ⟨vals', sk', r'⟩ := res
+    have hm := processK_mono prog rest k p s sk' vals' r' hp
+    rw [h] at hm
+    simp only [Option.some.injEq, Prod.mk.injEq] at hm
+    obtain ⟨rfl, rfl, hr⟩ := hm
+    have hr' : r' = [] := by
+      have := congrArg List.length hr
+      simp only [List.length_append] at this
+      exact List.eq_nil_of_length_eq_zero (by omega)
+    subst hr'
+    obtain ⟨k', rfl⟩ : ∃ n, k = n + 1 := ⟨k - 1, by omega⟩
+    exact absurd (processK_rest_nil prog k' p s _ _ hp) hl
+
+/-- non-vacuity: in the example above (`1 2`, k = 1, `p` = `1`, `rest` = ` 2`) the value is a number;
+    there `processK … 1 b!"1" …` is indeed `none` (third component of that example) -/
+example : ¬ lastComposite [JVal.num b!"1"] := by
+  rintro ⟨j, hj, hc⟩
+  simp only [List.getLast?_singleton, Option.some.injEq] at hj
+  subst hj; cases hc
+
+/-- the values listed by `processK` are the first `k` values of the stream as `decodeAll` (above)
+    lists them -/
+theorem processK_values (src : Bytes) (tbl : RuleTable) (sels : List Bytes) (name : Bytes) :
+    ∀ (k : Nat) (data : Bytes) (s sk : St) (vals : List JVal) (rest : Bytes),
+      processK prog src tbl sels name k data s = some (vals, sk, rest) →
+      (decodeAll numOk .more k data).1 = vals := by
+  intro k
+  induction k with
+  | zero =>
+    intro data s sk vals rest h
+    simp only [processK, Option.some.injEq, Prod.mk.injEq] at h
+    obtain ⟨rfl, _, _⟩ := h
+    rfl
+  | succ k ih =>
+    intro data s sk vals rest h
+    obtain ⟨v, rest1, s', vs, hd, _, hk, rfl⟩ := processK_succ_inv prog h
+    unfold decodeAll
+    rw [hd]
+    simp only [ih rest1 s' sk vs rest hk]
+
+/-- **whatever follows, the run passes through that state**: if the bytes `p` get `k` values
+    processed to state `sk` (leaving `r` of `p` unread), then the processing of ANY file of that
+    name whose bytes start with `p` — whatever follows, however the stream ends — is the processing
+    that continues from `sk` on the unread bytes: nothing after `p` influences `sk`, and the
+    file's final output begins with the output written in `sk`.  The fuel is the driver's own
+    (`length + 2`, see `processFiles`).  Holds for every end of the run, including errors and
+    out-of-fuel after `sk`. -/
+theorem run_passes_through (src : Bytes) (tbl : RuleTable) (sels : List Bytes) (name : Bytes)
+    (k : Nat) (p : Bytes) (s sk : St) (vals : List JVal) (r : Bytes)
+    (h : processK prog src tbl sels name k p s = some (vals, sk, r)) (more : Bytes) (t : Json.Tail) :
+    processFile prog src tbl sels ⟨name, p ++ more, t⟩ ((p ++ more).length + 2) (p ++ more) s =
+      processFile prog src tbl sels ⟨name, p ++ more, t⟩ ((p ++ more).length + 2 - k) (r ++ more) sk
+    ∧ sk.output <+:
+        (processFile prog src tbl sels ⟨name, p ++ more, t⟩ ((p ++ more).length + 2) (p ++ more) s).state.output := by
+  have hk := (processK_length prog k p s sk vals r h).1
+  have hrun := processK_run prog (src := src) (tbl := tbl) (sels := sels) ⟨name, p ++ more, t⟩ more
+    k p s sk vals r ((p ++ more).length + 2) h (by simp only [List.length_append]; omega)
+  refine ⟨hrun, ?_⟩
+  rw [hrun]
+  exact outExt_output_prefix (goodStep_outExt (processFile_good prog src tbl sels _ _ _ sk))
+
+/-- **Two inputs that agree up to the end of the k-th value plus one byte have written the same
+    output when the k-th value has been processed.**  Let the first `k` values of `data` be
+    processed to state `sk`, `rest` unread (`processK`, as above), and let `p` be the bytes up to
+    the end of the k-th value.  Any two files of the same name whose bytes start with `p` and
+    the first byte of `rest` (if there is one) — `data` itself is one — both pass through `sk`:
+    the output of each begins with `sk.output`, the output of processing those `k` values.
+    The files may differ in everything after that byte and in how they end. -/
+theorem agreeing_inputs_common_output (src : Bytes) (tbl : RuleTable) (sels : List Bytes) (name : Bytes)
+    (k : Nat) (data : Bytes) (s sk : St) (vals : List JVal) (rest : Bytes)
+    (h : processK prog src tbl sels name k data s = some (vals, sk, rest)) :
+    ∃ p, data = p ++ rest ∧ ∀ (m1 m2 : Bytes) (t1 t2 : Json.Tail),
+      let d1 := p ++ rest.take 1 ++ m1
+      let d2 := p ++ rest.take 1 ++ m2
+      sk.output <+: (processFile prog src tbl sels ⟨name, d1, t1⟩ (d1.length + 2) d1 s).state.output ∧
+      sk.output <+: (processFile prog src tbl sels ⟨name, d2, t2⟩ (d2.length + 2) d2 s).state.output := by
+  obtain ⟨p, hp, hk⟩ := k_values_and_one_byte_suffice prog src tbl sels name k data s sk vals rest h
+  exact ⟨p, hp, fun m1 m2 t1 t2 =>
+    ⟨(run_passes_through prog src tbl sels name k _ s sk vals _ hk m1 t1).2,
+     (run_passes_through prog src tbl sels name k _ s sk vals _ hk m2 t2).2⟩⟩
+
+/-- **the whole run**: the same through later input files and the END rules.  If, from the state
+    `s1` in which the BEGIN rules left the evaluator, the bytes `p` get `k` values of the first
+    file processed to state `sk`, then the output of the WHOLE run on any first file starting
+    with `p` (any continuation, any end of stream, any further files) begins with `sk.output` —
+    unless the run as a whole is out of fuel (the model's artefact; its output is then empty). -/
+theorem whole_run_passes_through (src : Bytes) (tbl : RuleTable) (sels : List Bytes) (name : Bytes)
+    (k : Nat) (p : Bytes) (s1 sk : St) (vals : List JVal) (r : Bytes)
+    (hbegin : evalSpecialRules prog (newCell (.nil none)) (rulesOf prog .begin_)
+      (newEvaluator prog Heap.empty [] 0) = .ok .continue_ s1)
+    (h : processK prog src tbl sels name k p s1 = some (vals, sk, r))
+    (more : Bytes) (t : Json.Tail) (others : List InputFile)
+    (hfuel : (runProgram prog src tbl sels (⟨name, p ++ more, t⟩ :: others)).outcome ≠ .oof) :
+    sk.output <+: (runProgram prog src tbl sels (⟨name, p ++ more, t⟩ :: others)).out := by
+  unfold runProgram at hfuel ⊢
+  rw [hbegin] at hfuel ⊢
+  dsimp only at hfuel ⊢
+  refine runFiles_out_of_first prog ⟨name, p ++ more, t⟩ others s1 sk ?_ hfuel
+  have hk := (processK_length prog k p s1 sk vals r h).1
+  have hrun := processK_run prog (src := src) (tbl := tbl) (sels := sels) ⟨name, p ++ more, t⟩ more
+    k p s1 sk vals r ((p ++ more).length + 2) h (by simp only [List.length_append]; omega)
+  show OutExt sk (processFile prog src tbl sels ⟨name, p ++ more, t⟩ ((p ++ more).length + 2) (p ++ more) s1).state
+  rw [hrun]
+  exact goodStep_outExt (processFile_good prog src tbl sels _ _ _ sk)
+
+/-- **Runs on inputs that agree up to the end of the k-th value plus one byte have a common
+    output prefix: the output of processing those k values.**  With `p` the bytes of `data` up to
+    the end of its k-th value and `rest` the bytes after it: EVERY run whose first file starts
+    with `p` and the first byte of `rest` (none if `rest` is empty) — whatever comes after that
+    byte, however that file ends, whatever files follow — writes `sk.output` first.  (Two such
+    runs: both outputs begin with `sk.output`.)  Out-of-fuel runs excepted, as above. -/
+theorem agreeing_runs_common_output (src : Bytes) (tbl : RuleTable) (sels : List Bytes) (name : Bytes)
+    (k : Nat) (data : Bytes) (s1 sk : St) (vals : List JVal) (rest : Bytes)
+    (hbegin : evalSpecialRules prog (newCell (.nil none)) (rulesOf prog .begin_)
+      (newEvaluator prog Heap.empty [] 0) = .ok .continue_ s1)
+    (h : processK prog src tbl sels name k data s1 = some (vals, sk, rest)) :
+    ∃ p, data = p ++ rest ∧ ∀ (m : Bytes) (t : Json.Tail) (others : List InputFile),
+      (runProgram prog src tbl sels (⟨name, p ++ rest.take 1 ++ m, t⟩ :: others)).outcome ≠ .oof →
+      sk.output <+: (runProgram prog src tbl sels (⟨name, p ++ rest.take 1 ++ m, t⟩ :: others)).out := by
+  obtain ⟨p, hp, hk⟩ := k_values_and_one_byte_suffice prog src tbl sels name k data s1 sk vals rest h
+  exact ⟨p, hp, fun m t others hf =>
+    whole_run_passes_through prog src tbl sels name k _ s1 sk vals _ hbegin hk m t others hf⟩
+
+/-- non-vacuity of both hypotheses together (program `{ print $ }`: no BEGIN rule, so the BEGIN
+    phase continues; then `1 2`, k = 1 as before), and two whole runs that agree on `1 ` only:
+    `1 2` ends normally after writing `1\n2\n`, `1 ]` ends with a JSON error after writing `1\n` -/
+example : (match parseProgramSrc expectedRuleTable b!"{ print $ }" with
+  | .ok prog =>
+    (match evalSpecialRules prog (newCell (.nil none)) (rulesOf prog .begin_) (newEvaluator prog Heap.empty [] 0) with
+     | .ok .continue_ s1 =>
+       (match processK prog b!"{ print $ }" expectedRuleTable [] b!"f" 1 b!"1 2" s1 with
+        | some (_, sk, rest) => sk.output == b!"1\n" && rest == b!" 2"
+        | none => false)
+     | _ => false)
+  | _ => false) = true := by decide +kernel
+example : (match evalProgram expectedRuleTable b!"{ print $ }" [] [⟨b!"f", b!"1 2", .eof⟩],
+      evalProgram expectedRuleTable b!"{ print $ }" [] [⟨b!"f", b!"1 ]", .eof⟩] with
+    | ⟨.ok, o1, _⟩, ⟨.jsonErr n, o2, _⟩ => o1 == b!"1\n2\n" && o2 == b!"1\n" && n == b!"f"
+    | _, _ => false) = true := by decide +kernel
+
+end OneByte
 
 end Jqawk.C03
